@@ -186,16 +186,43 @@ fn usage<T: Transport>(d: &mut AnyDriver<T>, co: &CoRc, steps: usize, keep: &mut
             },
             AnyDriver::NetBuf(n) => match step {
                 0 => {
+                    // Two frames arrive; the caller holds both buffers.
                     let mut frame = vec![0u8; 12];
                     frame.extend_from_slice(&[9, 9, 9]);
                     co.borrow_mut().complete_held(0, 1, &frame, frame.len() as u32);
-                    if let Ok(rx) = n.receive() {
-                        keep.rx.push(rx);
+                    co.borrow_mut().complete_held(0, 1, &frame, frame.len() as u32);
+                    for _ in 0..2 {
+                        if let Ok(rx) = n.receive() {
+                            keep.rx.push(rx);
+                        }
                     }
                 }
                 1 => {
-                    if let Some(rx) = keep.rx.pop() {
+                    // Recycled oldest first (they come back under each other's tokens).
+                    while !keep.rx.is_empty() {
+                        let rx = keep.rx.remove(0);
                         let _ = n.recycle_rx_buffer(rx);
+                    }
+                }
+                3 => {
+                    // Every posted buffer is used once more and received.
+                    let mut frame = vec![0u8; 12];
+                    frame.extend_from_slice(&[7, 7]);
+                    loop {
+                        let more = {
+                            let mut c = co.borrow_mut();
+                            c.service(0);
+                            c.held.get(&0).map(|h| !h.is_empty()).unwrap_or(false)
+                        };
+                        if !more {
+                            break;
+                        }
+                        co.borrow_mut().complete_held(0, 0, &frame, frame.len() as u32);
+                    }
+                    for _ in 0..crate::drivers::NET_QS {
+                        if let Ok(rx) = n.receive() {
+                            keep.rx.push(rx);
+                        }
                     }
                 }
                 _ => {
